@@ -39,14 +39,15 @@ func vfstub_sm_waitForSend(s *Session, hdr header, body []byte) error {
 }
 
 type smEnd struct {
-	stream *Stream
-	model  [64]byte // bytes flushed towards this end, in order
-	sent   int      // flushed towards this end
-	deliv  int      // ... of which delivered to this end's session
-	read   int      // consumed by this end
-	closed bool     // this end called Close
-	lastSt uint32
-	sawEOF bool
+	stream    *Stream
+	model     [64]byte // bytes flushed towards this end, in order
+	sent      int      // flushed towards this end
+	deliv     int      // ... of which delivered to this end's session
+	read      int      // consumed by this end
+	closed    bool     // this end called Close
+	lastSt    uint32
+	sawEOF    bool
+	overtaken bool // closed by its sender while its socket-fallback data was still on the wire
 }
 
 type smWorld struct {
@@ -116,7 +117,7 @@ func (w *smWorld) deliverAB() {
 		vfAssert(err == nil && s != nil, "SM.accept")
 		for i := 0; i < w.nstr; i++ {
 			if w.a[i].stream.id == s.id {
-				vfAssert(w.b[i].stream == nil, "C19.stream-surfaces-exactly-once")
+				smAssert(w.b[i].closed, "F-ZOMBIE", w.b[i].stream == nil, "C19.stream-surfaces-exactly-once")
 				if w.b[i].stream != nil {
 					// the id surfaced a second time (data for a stream the server had already
 					// closed): the application closes what it accepts
@@ -128,6 +129,32 @@ func (w *smWorld) deliverAB() {
 			}
 		}
 	}
+}
+
+func (w *smWorld) acceptAll() {
+	for len(w.B.acceptCh) > 0 {
+		s, err := w.B.AcceptStream()
+		vfAssert(err == nil && s != nil, "SM.accept")
+		for i := 0; i < w.nstr; i++ {
+			if w.a[i].stream.id == s.id {
+				smAssert(w.b[i].closed, "F-ZOMBIE", w.b[i].stream == nil, "C19.stream-surfaces-exactly-once")
+				if w.b[i].stream != nil {
+					w.extra[w.nextra] = s
+					w.nextra++
+				} else {
+					w.b[i].stream = s
+				}
+			}
+		}
+	}
+}
+
+// deliverOneAB: only the oldest control event is handled (the rest is still "on the wire")
+func (w *smWorld) deliverOneAB() {
+	n, err := w.B.handleEvents(smWireAB[0])
+	vfAssert(err == nil && n == len(smWireAB[0]), "SM.events-consumed-by-B")
+	smWireAB = smWireAB[1:]
+	w.acceptAll()
 }
 
 func (w *smWorld) deliverBA() {
@@ -185,7 +212,13 @@ func (w *smWorld) recv(i int, atA bool, k int) {
 	if e.stream == nil {
 		vfPrune()
 	}
-	if k > e.deliv-e.read && !e.closed && e.stream.state == uint32(streamOpened) {
+	// what has been delivered to this end so far (the read itself would move pending data first)
+	avail := 0
+	if !e.closed {
+		e.stream.pendingData.moveTo(e.stream.recvBuf)
+		avail = e.stream.recvBuf.Len()
+	}
+	if k > avail && !e.closed && e.stream.state == uint32(streamOpened) {
 		vfPrune() // the read would block: not part of the sequential space
 	}
 	b, err := e.stream.BufferReader().ReadBytes(k)
@@ -193,7 +226,7 @@ func (w *smWorld) recv(i int, atA bool, k int) {
 		vfAssert(err == ErrStreamClosed || err == ErrEndOfStream, "C10.read-after-local-close-fails")
 		return
 	}
-	avail := e.deliv - e.read
+	vfAssert(avail <= e.sent-e.read, "C07.never-more-than-was-flushed")
 	if k <= avail {
 		vfAssert(err == nil && len(b) == k, "C07.read-gets-what-was-flushed")
 		for j := 0; j < k; j++ {
@@ -209,6 +242,13 @@ func (w *smWorld) recv(i int, atA bool, k int) {
 	vfAssert(err == ErrEndOfStream || err == ErrStreamClosed, "C10.eof-after-peer-close")
 	if avail == 0 {
 		e.sawEOF = true
+		// the reader is told the stream ended: everything the peer flushed successfully before
+		// closing must have been offered already
+		peer := &w.a[i]
+		if atA {
+			peer = &w.b[i]
+		}
+		smAssert(peer.overtaken, "F-CLOSEOVERTAKE", e.read == e.sent, "C07.end-of-stream-only-after-every-flushed-byte-was-offered")
 	}
 }
 
@@ -222,6 +262,9 @@ func (w *smWorld) closeEnd(i int, atA bool) {
 	if e.stream == nil {
 		vfPrune()
 	}
+	if atA && e.stream.inFallbackState && len(smWireAB) > 0 {
+		e.overtaken = true // F-CLOSEOVERTAKE: the close travels through the queue, the data through the socket
+	}
 	err := e.stream.Close()
 	vfAssert(err == nil, "C10.close-returns-nil")
 	e.closed = true
@@ -231,6 +274,17 @@ func (w *smWorld) closeEnd(i int, atA bool) {
 		sess = w.A
 	}
 	vfAssert(sess.streams[e.stream.id] == nil, "C10.closed-stream-not-active")
+}
+
+// smAssert: a violation that falls under a recorded known finding is reported under the
+// finding's prefix (the predicate `known` identifies the specific history), any other one under
+// the plain id.
+func smAssert(known bool, tag string, c bool, id string) {
+	if known {
+		vfAssert(c, tag+"/"+id)
+	} else {
+		vfAssert(c, id)
+	}
 }
 
 // state only moves forward: opened(0) -> halfClosed(2) -> closed(1)
@@ -285,14 +339,20 @@ func H_SM_history() {
 	}
 	L := vfShape("steps", 1, 6)
 	for step := 0; step < L; step++ {
-		op := vfShape("op", 0, 8)
+		op := vfShape("op", 0, 9)
 		i := 0
 		if ns == 2 {
 			i = vfShape("which", 0, 1)
 		}
 		switch op {
+		case 9: // the server's event loop handles exactly the next control event
+			if len(smWireAB) == 0 {
+				vfPrune()
+			}
+			w.deliverOneAB()
 		case 0:
-			w.send(i, true, []int{3, 9}[vfShape("size", 0, 1)])
+			// 3: one slice; 9: two slices; 25: more than shared memory offers -> socket fallback
+			w.send(i, true, []int{3, 9, 25}[vfShape("size", 0, 2)])
 		case 1:
 			w.deliverAB()
 		case 2:
@@ -322,7 +382,7 @@ func H_SM_history() {
 		if w.a[i].closed && w.b[i].stream != nil {
 			// the peer observes the end of the stream after draining what was flushed
 			st := w.b[i].stream.state
-			vfAssert(st != uint32(streamOpened) || w.b[i].closed, "C10.close-propagates-to-peer")
+			smAssert(w.a[i].overtaken, "F-CLOSEOVERTAKE", st != uint32(streamOpened) || w.b[i].closed, "C10.close-propagates-to-peer")
 		}
 		if w.b[i].closed {
 			st := w.a[i].stream.state
